@@ -417,14 +417,31 @@ class InstanceValue(Object):
         self.cls = cls
 
     @cached_property
+    def _inst_attrs(self):
+        # type: () -> Attributes
+        # attributes assigned through self in the methods of the class and of
+        # its bases (leftmost base strongest, the class itself strongest of all)
+        attrs = {}  # type: Attributes
+        for b in reversed(self.cls.bases):
+            o = b.call(self.ctx)
+            if isinstance(o, InstanceValue):
+                attrs.update(o._inst_attrs)
+        attrs.update(self.cls.scope.top.assigns(self.ctx).get(self, {}))
+        return attrs
+
+    @cached_property
     def _attrs(self):
         # type: () -> Attributes
+        # instance attributes shadow class attributes; class attributes follow
+        # the bases' order (ClassObject._attrs), so an override in the class
+        # is not replaced by what a base defines
         attrs = self.cls._attrs.copy()
         for b in reversed(self.cls.bases):
             o = b.call(self.ctx)
-            if o:
-                attrs.update(o._attrs)
-        attrs.update(self.cls.scope.top.assigns(self.ctx).get(self, {}))
+            if o and not isinstance(o, InstanceValue):
+                for k, v in iteritems(o._attrs):
+                    attrs.setdefault(k, v)
+        attrs.update(self._inst_attrs)
         return attrs
 
 
